@@ -131,6 +131,8 @@ def replayer(name, args, kwargs, meta):
         if name == "step":
             s0, s1, mode = args
             (f0, i0, h0), (f1, i1, h1) = valid[s0], valid[s1]
+            if (mode == 1 and FILE_STATES[f0] is None) or (mode == 2 and FILE_STATES[f1] is None):
+                return False, {"summary": "explicit path of a page that does not exist: not a run the harness makes"}
             _put_state(z, (f0, f1), (i0, i1), (h0, h1))
             desc = "state files=%r index=%r hashes=%r, then %s" % (
                 [FILE_STATES[f0], FILE_STATES[f1]], [INDEX_STATES[i0], INDEX_STATES[i1]],
